@@ -4,6 +4,7 @@
   vector keeps the prefix before the affected index and nothing else happens.
 -/
 import AnyVecModel.Proofs.Exec
+import AnyVecModel.Proofs.KernelCtor
 import AnyVecModel.Props.Hist
 namespace AnyVec
 namespace C07
@@ -103,6 +104,37 @@ theorem history_forget_drain_core (cfg : Cfg) (w : World) (hr : Hist.Reach cfg w
     (typed : Bool) (eats : List (End × Sink)) (hv : Hist.liveVec w.vecs v) (hc : ∀ p ∈ eats, p.2.ValidItem w.vecs v typed) :
     (runStep cfg (.drain v lo hi typed eats .forget) none w).1.Inv :=
   (Hist.runStep_inv cfg (.drain v lo hi typed eats .forget) none w (Hist.reach_inv_core cfg w hr) trivial ⟨hv, hc⟩).1
+
+/-! ### tie to the source text -/
+
+/-- **source tie**: the model lowers a vector's length at the creation of a removal handle / range iterator
+exactly as `Pop::new`, `Remove::new`, `SwapRemove::new`, `Drain::new`, `Splice::new` of `/repo/src/ops/*.rs` do
+(re-translated on this run into `Gen/Kernel.lean`): the steps of the model continue from the length and the
+fields those constructors produce. -/
+theorem constructors_are_the_source (cfg : Cfg) (w : World) (v i : Nat) (k : Sink) (d : VecSt)
+    (hv : w.vecs[v]? = some d) (hl : d.live = true) (hi : i < d.len) :
+    (∃ len', Gen.Kernel.pop_new d.len = .ok (.made len' []) ∧
+      step cfg (.pop v k) w = sinkHandle cfg { v := v, kind := .pop, typed := false } k (w.upd v { d with len := len' })) ∧
+    (∃ len' idx last, Gen.Kernel.remove_new d.len i = .ok (.made len' [idx, last]) ∧
+      step cfg (.remove v i k) w =
+        sinkHandle cfg { v := v, kind := .remove idx last, typed := false } k (w.upd v { d with len := len' })) ∧
+    (∃ len' slot last, Gen.Kernel.swap_remove_new d.len i = .ok (.made len' [slot, last]) ∧
+      step cfg (.swapRemove v i k) w =
+        sinkHandle cfg { v := v, kind := .swapRemove slot d.gen last, typed := false } k (w.upd v { d with len := len' })) :=
+  ⟨KernelTie.pop_ctor_tie cfg w v k d hv hl (by omega), KernelTie.remove_ctor_tie cfg w v i k d hv hl hi,
+   KernelTie.swap_remove_ctor_tie cfg w v i k d hv hl hi⟩
+
+theorem range_constructors_are_the_source (cfg : Cfg) (w : World) (v : Nat) (lo hi : Bnd) (typed : Bool)
+    (eats : List (End × Sink)) (fin : Fin) (d : VecSt) (s e : Nat) (hv : w.vecs[v]? = some d) (hl : d.live = true)
+    (hr : intoRange d.len lo hi = .ok (s, e)) :
+    (∃ len' fields, Gen.Kernel.drain_new d.len s e = .ok (.made len' fields) ∧
+      step cfg (.drain v lo hi typed eats fin) w =
+        (do let (it', out) ← eatLoop cfg drainDrop (KernelTie.itOf v typed fields) eats [toString (e - s)]
+            match fin with
+            | .drop => do drainDrop it'; pure out
+            | .forget => pure out : WM Out) (w.upd v { d with len := len' })) ∧
+    Gen.Kernel.splice_new d.len s e = Gen.Kernel.drain_new d.len s e :=
+  ⟨KernelTie.drain_ctor_tie cfg w v lo hi typed eats fin d s e hv hl hr, (KernelTie.splice_ctor_tie d s e).2⟩
 
 end C07
 end AnyVec
